@@ -196,6 +196,53 @@ func ZZ_C16_leaf() {
 	rt.Reach("end")
 }
 
+// ZZ_C16_manyvars: one scalar item holding n variables (n beyond 65,536: an index packed into
+// 16 bits no longer fits): listed once each, in order, and accepted as a list element.
+func ZZ_C16_manyvars() {
+	n, kind := rt.Param("n"), rt.Param("kind")
+	names := make([]string, n)
+	vals := make([]interface{}, n)
+	for i := range names {
+		names[i] = "v" + rt.N("", i)[1:]
+		vals[i] = names[i]
+	}
+	c := rt.Byte("c")
+	vals[n/2] = uint8(c & 1)
+	var item ItemNode
+	switch kind {
+	case 0:
+		item = NewUintNode(1, vals...)
+	case 1:
+		vals[n/2] = c&1 == 1
+		item = NewBooleanNode(vals...)
+	case 2:
+		vals[n/2] = int(c)
+		item = NewBinaryNode(vals...)
+	}
+	vs := item.Variables()
+	rt.Assert(len(vs) == n-1, "manyvars:count")
+	bad := 0
+	for i, j := 0, 0; i < n && j < len(vs); i++ {
+		if i == n/2 {
+			continue
+		}
+		if vs[j] != names[i] {
+			bad++
+		}
+		j++
+	}
+	rt.Assert(bad == 0, "manyvars:listed-in-order-once-each")
+	rt.Assert(item.Size() == n, "manyvars:size")
+	rt.Assert(len(item.ToBytes()) == 0, "manyvars:not-encodable")
+	p := rt.Try(func() { item = NewListNode(item, "tail") })
+	rt.Assert(!p, "manyvars:accepted-as-list-element")
+	if !p {
+		lv := item.Variables()
+		rt.Assert(len(lv) == n && lv[n-1] == "tail" && lv[0] == names[0], "manyvars:list-lists-them")
+	}
+	rt.Reach("end")
+}
+
 func ZZ_C16_tree() {
 	rt.MapOrder(rt.Param("order"))
 	g := &zzGen{kinds: rt.Param("kinds")}
